@@ -5,6 +5,7 @@ import (
 	"go/ast"
 	"go/token"
 	"go/types"
+	"strings"
 
 	"golang.org/x/tools/go/packages"
 )
@@ -102,6 +103,26 @@ func armAssigns(info *types.Info, list []ast.Stmt, result types.Object, fresh ma
 				}
 				if _, isCall := ast.Unparen(x.Results[0]).(*ast.CallExpr); isCall {
 					good = true // delegated copy
+				}
+				// a local that holds the result of a call made in this arm (val, err := c.fun(tv); return val)
+				if ro := useObj(info, x.Results[0]); ro != nil && !good {
+					for _, st := range list {
+						ast.Inspect(st, func(k ast.Node) bool {
+							as, isAs := k.(*ast.AssignStmt)
+							if !isAs || len(as.Rhs) != 1 {
+								return true
+							}
+							if _, isCall := ast.Unparen(as.Rhs[0]).(*ast.CallExpr); !isCall {
+								return true
+							}
+							for _, l := range as.Lhs {
+								if id, isId := l.(*ast.Ident); isId && (info.Defs[id] == ro || info.Uses[id] == ro) {
+									good = true
+								}
+							}
+							return true
+						})
+					}
 				}
 			}
 			if len(x.Results) == 0 && assigned {
@@ -289,7 +310,12 @@ func copySwitchArms(prog *Program, rep *Report, rel, fname string) int {
 		return 0
 	}
 	info := pk.TypesInfo
-	fd, _ := prog.FuncDecl(Func(pk, fname))
+	var fd *ast.FuncDecl
+	if i := strings.Index(fname, "."); i > 0 {
+		fd, _ = prog.FuncDecl(Method(pk, fname[:i], fname[i+1:]))
+	} else {
+		fd, _ = prog.FuncDecl(Func(pk, fname))
+	}
 	if fd == nil {
 		rep.Errorf("%s.%s not found", rel, fname)
 		return 0
